@@ -2,7 +2,7 @@
     status that comes out of [open_dump] is a documented error status, and the
     whole modelled open is free of forbidden outcomes. *)
 From Coq Require Import NArith ZArith List Bool Lia ZifyBool ZifyNat ZifyN.
-From KdV Require Import Parse.Bounded Parse.BoundedProofs Parse.NotesModel Parse.ElfModel Parse.ElfProofs
+From KdV Require Import Parse.Bounded Parse.BoundedProofs Parse.NotesModel Parse.PElfModel Parse.ElfProofs
      Parse.FlatInit Parse.FlatInitProofs Parse.SizesModel Parse.SizesProofs Parse.ProbeModel.
 Import ListNotations.
 Local Open Scope N_scope.
